@@ -64,9 +64,16 @@ func (lrw *limitedResponseWriter) checkLimit(b []byte) error {
 
 	// If headers haven't been written yet, set the 413 status
 	if !lrw.wroteHeader {
+		// The 413 carries no body, so the backend's Content-Length does not describe it
+		lrw.Header().Del("Content-Length")
 		lrw.statusCode = http.StatusRequestEntityTooLarge
 		lrw.ResponseWriter.WriteHeader(http.StatusRequestEntityTooLarge)
 		lrw.wroteHeader = true
+		// Send it now: the reverse proxy aborts the connection when its copy fails on the
+		// error returned below, which would discard a status that is only buffered
+		if f, ok := lrw.ResponseWriter.(http.Flusher); ok {
+			f.Flush()
+		}
 	}
 
 	return fmt.Errorf("response body exceeds limit of %d bytes", lrw.limit)
